@@ -99,9 +99,12 @@ reg("C03", exc_ops={"AddLinks", "IndexBatchCrawl"}, nontrivial=nt_links, hook="l
 reg("C04", exc_ops=WE_OPS, nontrivial=nt_we, hook="resolve", mc=[("core", 4, 5), ("we", 4, 5)], gen_mc="we",
     weights={"CreateWe": 14, "DeleteWe": 8, "AddPrefix": 10, "RemovePrefix": 8, "MovePrefix": 8,
              "AddPage": 14},
-    profile={"raw": 0.0, "long": 0.15}, title="Longest-prefix resolution")
+    profile={"raw": 0.0, "long": 0.15, "bigids": 0.35}, title="Longest-prefix resolution")
 reg("C05", exc_ops=set(), nontrivial=nt_we, hook="wepages", obs_fail=True,
-    weights={"CreateWe": 12, "AddPrefix": 8, "MovePrefix": 5, "AddRule": 6},
+    # "with correct marks": the marks the webentity queries report are compared with the page enumeration
+    # (C05.marks), and the enumeration with the submissions (C01.crawled): both links are needed
+    prefixes=["C05.", "C01.crawled"],
+    weights={"CreateWe": 12, "AddPrefix": 8, "MovePrefix": 5, "AddRule": 6, "IndexBatchCrawl": 18},
     profile={"raw": 0.0, "long": 0.3, "nlrus": 12}, title="Webentity page sets")
 reg("C06", exc_ops=WRITE_OPS | RULE_OPS, nontrivial=nt_we, hook="potential",
     mc=[("core", 4, 5), ("we", 4, 5), ("wesub", 0, 5)],
@@ -130,7 +133,7 @@ reg("C10", exc_ops=set(), nontrivial=nt_links, hook="paglinks", obs_fail=False,
     title="Pagelink pagination")
 reg("C11", exc_ops={"Reopen", "Clear", "Recreate", "ClearKeep"}, nontrivial=nt_pages, hook="life",
     roles=[("file", ()), ("file", ("Reopen",))], pairname="C11.twin", prefixes=["C11."],
-    weights={"Reopen": 24, "Clear": 5, "Recreate": 3, "AddRule": 8, "CreateWe": 16, "DeleteWe": 6, "AddPage": 26},
+    weights={"Reopen": 24, "Clear": 10, "Recreate": 3, "AddRule": 8, "CreateWe": 16, "DeleteWe": 6, "AddPage": 26},
     profile={"raw": 0.1, "long": 0.3, "nlrus": 12}, n=(60, 600), steps=(16, 24), title="Close/reopen/clear")
 reg("C12", exc_ops=set(), nontrivial=nt_we, mc=[("core", 4, 5), ("we", 4, 5)], gen_mc="we",
     weights={"CreateWe": 14, "DeleteWe": 8, "Reopen": 18, "AddRule": 12, "Clear": 3, "AddPage": 26},
